@@ -162,7 +162,63 @@ func genOne(c *hx.Ctx, class string) string {
 	return fmt.Sprintf("c10 end %d Q %s | %s", end, strings.Join(qs, " "), strings.Join(sb, " ; "))
 }
 
+// genBurst: n delayed tasks that all fall due in the same tick (deadlines in (dueTick-1 s, dueTick]), on nQ target queues
+// that have room for all of them; issued within one instant/tick (spread = false) or over several earlier ticks.
+func genBurst(c *hx.Ctx, n, nQ int, spread bool) string {
+	r := c.Rng
+	dueTick := int64(5)
+	type rq struct {
+		q    int
+		d, t int64
+	}
+	reqs := make([]rq, 0, n)
+	t0 := int64(r.Range(0, 3))*T + 1 + int64(r.U64()%uint64(T-2))
+	for i := 0; i < n; i++ {
+		t := t0
+		if spread {
+			t = int64(r.Range(0, 3))*T + 1 + int64(r.U64()%uint64(T-2))
+		} else if r.Intn(4) == 0 {
+			t = t0 + int64(r.Intn(1000))
+		}
+		var dl int64
+		switch r.Intn(4) {
+		case 0:
+			dl = dueTick * T // exactly on the tick
+		case 1:
+			dl = (dueTick-1)*T + 1 + int64(r.Intn(16)) // many equal deadlines
+		default:
+			dl = (dueTick-1)*T + 1 + int64(r.U64()%uint64(T-1))
+		}
+		reqs = append(reqs, rq{r.Intn(nQ), dl - t, t})
+	}
+	sort.SliceStable(reqs, func(i, j int) bool { return reqs[i].t < reqs[j].t })
+	var qs, sb []string
+	for i := 0; i < nQ; i++ {
+		qs = append(qs, fmt.Sprintf("%d:0", n+1))
+	}
+	for _, x := range reqs {
+		sb = append(sb, fmt.Sprintf("%d %d %d", x.q, x.d, x.t))
+	}
+	return fmt.Sprintf("c10 end %d Q %s | %s", (dueTick+4)*T+T/2, strings.Join(qs, " "), strings.Join(sb, " ; "))
+}
+
 func gen(c *hx.Ctx) {
+	// bursts: more than 1024 tasks due in one tick
+	sizes := []int{1025, 1500, 3000}
+	if c.Thorough() {
+		sizes = append(sizes, 10000)
+	}
+	for _, n := range sizes {
+		for _, nQ := range []int{1, 3} {
+			for _, spread := range []bool{false, true} {
+				if n >= 3000 && nQ == 3 && !spread && !c.Thorough() {
+					continue
+				}
+				c.Emit("%s", genBurst(c, n, nQ, spread))
+				c.Count(fmt.Sprintf("burst_%d", n))
+			}
+		}
+	}
 	classes := []string{"basic", "order", "closedq", "tie0", "many", "full", "order", "basic", "closedq"}
 	N := c.Budget(12000, 150000)
 	for i := 0; i < N; i++ {
